@@ -314,7 +314,7 @@ pub fn run(c: &Case) -> Outcome {
 
 fn gop() -> impl Strategy<Value = GOp> {
     prop_oneof![
-        5 => (0u8..6, 0u8..6).prop_map(|(a, b)| GOp::Attach(a, b)),
+        8 => (0u8..6, 0u8..6).prop_map(|(a, b)| GOp::Attach(a.max(b), a.min(b))),
         2 => (0u8..6).prop_map(GOp::Detach),
         1 => (0u8..6).prop_map(GOp::Despawn),
         1 => (0u8..6).prop_map(GOp::Spawn),
@@ -341,7 +341,7 @@ impl Prop for C10 {
         "C10"
     }
     fn units(&self, tier: Tier) -> Vec<Unit> {
-        vec![Unit::new("split", if tier == Tier::Quick { 8_000 } else { 300_000 })]
+        vec![Unit::new("split", if tier == Tier::Quick { 30_000 } else { 600_000 })]
     }
     fn run_unit(&self, unit: &Unit, cases: u32, seed: u64, stats: &mut Stats) -> Option<Failure> {
         run_proptest(&unit.name, case_strategy(), cases, seed, 2000, stats, |c| guarded("C10", || run(c)))
